@@ -64,11 +64,14 @@ pub struct NodeBehaviour {
     pub lose_replies: u64,
     /// record returned for distance 0 instead of the node's current one
     pub own_record_override: Option<Vec<u8>>,
+    /// a record (raw bytes, node id) this node slips into its NODES answers whenever its log2
+    /// distance from this node is NOT among the requested ones
+    pub off_distance_record: Option<(Vec<u8>, Id)>,
 }
 
 impl Default for NodeBehaviour {
     fn default() -> Self {
-        NodeBehaviour { silent: false, respond: true, challenge_unknown: true, answer_whoareyou: true, pong_addr: None, records_per_packet: 3, lose_replies: 0, own_record_override: None }
+        NodeBehaviour { silent: false, respond: true, challenge_unknown: true, answer_whoareyou: true, pong_addr: None, records_per_packet: 3, lose_replies: 0, own_record_override: None, off_distance_record: None }
     }
 }
 
@@ -196,6 +199,8 @@ pub struct World {
     pub unclaimed: Vec<(Duration, SocketAddr, Vec<u8>)>,
     /// every datagram the node under test sent (time, destination, bytes)
     pub all_sent: Vec<(Duration, SocketAddr, Vec<u8>)>,
+    /// answers into which a node slipped its off-distance record (time, node, request id)
+    pub off_distance_served: Vec<(Duration, usize, Vec<u8>)>,
     /// every datagram simulated nodes delivered to the node under test (time, source, kind, bytes)
     pub all_injected: Vec<(Duration, SocketAddr, &'static str, Vec<u8>)>,
     pub request_timeout: Duration,
@@ -271,6 +276,7 @@ impl World {
             unclaimed: Vec::new(),
             all_sent: Vec::new(),
             all_injected: Vec::new(),
+            off_distance_served: Vec::new(),
             request_timeout: cfg.request_timeout,
             request_retries: cfg.request_retries,
             last_injected: None,
@@ -557,6 +563,13 @@ impl World {
                     let d = log2(&me, &self.nodes[j].sim.ident.id);
                     if distances.contains(&d) && recs.len() < 16 {
                         recs.push(self.nodes[j].sim.ident.record_bytes());
+                    }
+                }
+                if let Some((raw, pid)) = self.nodes[i].b.off_distance_record.clone() {
+                    if !distances.contains(&log2(&me, &pid)) {
+                        // first, so that it travels in the first packet of the answer
+                        recs.insert(0, raw);
+                        self.off_distance_served.push((now, i, id.clone()));
                     }
                 }
                 let per = self.nodes[i].b.records_per_packet.max(1);
